@@ -382,11 +382,21 @@ def run_item(src, tier, drop_type=None):
   pending_reads = []
   taint = {}
 
+  nested_lines = {}     # line -> innermost local function containing it
+  for fnode in ast.walk(tree):
+    if isinstance(fnode, ast.FunctionDef) and fnode.name != 'f':
+      for ln in range(fnode.lineno, fnode.end_lineno + 1):
+        nested_lines[ln] = fnode.lineno
+
   def ld(k, v):
     pending_reads.append(k[2])
     t = types.get(tuple(k))
     if t is not None and not type_ok(typeof(v), t):
       cause = taint.get(k[2]) or last_writer.get(k[2], ('?', 'param', 0))
+      if cause[2] and k[0] in nested_lines and nested_lines.get(cause[0]) == nested_lines[k[0]]:
+        # written and read inside the local function itself: the flow-sensitive types of that function must cover it
+        # (the known finding is about reads in the ENCLOSING function after the call)
+        cause = (cause[0], cause[1] + '-read-back-in-the-same-local-function', 0)
       add(viol, classify('load', cause), 'line %d: %s holds a %s at run time, inferred types %s (last written by %s%s)' % (
           k[0], k[2], tname(typeof(v)), sorted(map(tname, t)), cause[1], ' inside the local function' if cause[2] else ''), tape())
     return v
